@@ -11,9 +11,9 @@ fn vg_f() -> FiniteF64 {
 
 /// Duration::is_time_duration (the guard of Instant / PlainTime add and subtract): true exactly when years, months, weeks AND
 /// days are all zero - whatever the time fields hold (the contract Verus assumes for it in unit dtdiff)
-// bounded: iterates the 4 date fields; unwind 6 with unwinding assertions on, hence complete
+// bounded: iterates the 4 date fields (a field iteration over all 10 stays inside the bound too); unwind 12 with unwinding assertions on, hence complete
 #[kani::proof]
-#[kani::unwind(6)]
+#[kani::unwind(12)]
 fn c06_is_time_duration() {
     let f = [vg_f(), vg_f(), vg_f(), vg_f(), vg_f(), vg_f(), vg_f(), vg_f(), vg_f(), vg_f()];
     let d = Duration::new_unchecked(DateDuration::new_unchecked(f[0], f[1], f[2], f[3]), TimeDuration::new_unchecked(f[4], f[5], f[6], f[7], f[8], f[9]));
